@@ -138,3 +138,54 @@ def atoms_of(v, out=None):
 
 def apps_of(v):
     return {a[1:] for a in atoms_of(v) if a.startswith("@")}
+
+
+def staged_check(rep, rule, key, S, body, args, steps, final, loc=None, sample=None):
+    """ALG-REF for large straight-line algorithms.  `steps`: ordered list of (name, fn(R, env)) giving
+    the published intermediate quantities in terms of the inputs and earlier quantities (env: name -> value);
+    every `let` of the code whose value equals a quantity is replaced by the atom ref:<name> (matching is by
+    value, never by the local's name), so neither side is ever multiplied out.  The returned value must
+    equal final(R, env)."""
+    R = S.R
+    env, refvals, order = {}, {}, []
+    try:
+        for name, fn in steps:
+            refvals[name] = fn(R, env)
+            env[name] = S.ctx.sym("ref:" + name)
+            order.append(name)
+        exp = final(R, env)
+    except (Opaque, poly.TooBig) as ex:
+        return rep.fail(rule, key, "reference not constructible: %s" % ex, loc or S.F.loc(body))
+    matched = []
+
+    def hook(v):
+        if isinstance(v, (Struct, Tuple, Array)) or not isinstance(v, (RatFunc, Ite)):
+            return v
+        for name in order:
+            if name in matched:
+                continue
+            try:
+                if not alg.compare(v, refvals[name], S.ctx):
+                    matched.append(name)
+                    return env[name]
+            except (Opaque, poly.TooBig):
+                continue
+        return v
+    S.ev.let_hook = hook
+    try:
+        v, fr = S.ev.eval_body(body, args)
+    except (Opaque, poly.TooBig, ZeroDivisionError) as ex:
+        S.ev.let_hook = None
+        return rep.fail(rule, key, "uninterpretable: %s (matched quantities: %s)" % (ex, matched), loc or S.F.loc(body))
+    S.ev.let_hook = None
+    # a quantity bound directly to the result (no `let`) is matched here
+    v = hook(v) if not isinstance(v, (Struct, Tuple, Array)) else v
+    missing = [n for n in order if n not in matched]
+    try:
+        mm = alg.compare(v, exp, S.ctx)
+    except (Opaque, poly.TooBig) as ex:
+        return rep.fail(rule, key, "comparison not decidable: %s; unmatched quantities: %s" % (ex, missing), loc or S.F.loc(body))
+    if mm:
+        return rep.fail(rule, key, "result differs from the published formula; first published quantity with no equal `let` in the code: %s; %s"
+                        % (missing[:3], "; ".join(str(m) for m in mm[:2])), loc or S.F.loc(body))
+    return rep.ob(rule, key, True, sample or ("matched published quantities: " + ", ".join(matched)), loc or S.F.loc(body))
